@@ -493,7 +493,7 @@ func (x *Exec) indexAddr(fr *Frame, st *State, w *ssa.IndexAddr) Value {
 	switch a := xv.(type) {
 	case *SliceV:
 		x.safety(st, "bounds", And(Ge(idx, TZero), Lt(idx, a.Len)), w.Pos())
-		return &PtrV{Loc: &Loc{Kind: LElem, Ref: a.Ptr, Idx: Add(a.Off, idx), Root: a.Elem, Typ: a.Elem}, Elem: a.Elem}
+		return &PtrV{Loc: &Loc{Kind: LElem, Ref: a.Ptr, Idx: Sidx(a.Off, idx), Root: a.Elem, Typ: a.Elem}, Elem: a.Elem}
 	case *PtrV: // pointer to array
 		x.nilCheck(st, a, w.Pos())
 		at := a.Loc.Typ.Underlying().(*types.Array)
@@ -562,6 +562,9 @@ func (x *Exec) sliceOp(fr *Frame, st *State, w *ssa.Slice) Value {
 		sl := x.makeSlice(st, at.Elem(), n, n)
 		ref = sl.Ptr
 		av := c.V.(*ArrV)
+		if av.E == nil && at.Len() > 64 {
+			av = &ArrV{Typ: av.Typ} // zeroed by makeSlice
+		}
 		for i, e := range av.E {
 			x.storeObj(st, "A", at.Elem(), ref, IntLit(int64(i)), "", at.Elem(), e)
 		}
